@@ -63,6 +63,11 @@ func newWorld(p *Plan, start time.Time) *world {
 		if t > 0 && p.Door == "http" {
 			w.timerAt[ui] = u.AtNS + t
 		}
+		// the context's own deadline timer and the handler's timeout timer fire at the same
+		// instant: who runs first is not decided by the simulator
+		if p.Door == "http" && u.CtxTimeoutMS > 0 && t == int64(u.CtxTimeoutMS)*ms {
+			w.racy[ui] = true
+		}
 	}
 	return w
 }
@@ -170,8 +175,17 @@ func (s *svc) Sleep(ctx context.Context, name string, ns int64, honour bool) (st
 	case <-t.C:
 		return name, nil
 	case <-ctx.Done():
+		w.wokenByCancel(name)
 		return "", ctx.Err()
 	}
+}
+
+// wokenByCancel: a context-honouring method returns because the call context was cancelled;
+// when that is the request timeout's own cancel(), its return races with the timeout write.
+func (w *world) wokenByCancel(name string) {
+	w.mu.Lock()
+	w.racy[w.unitOf[name]] = true
+	w.mu.Unlock()
 }
 
 func (s *svc) Block(ctx context.Context, name string, honour bool) (string, error) {
@@ -190,6 +204,7 @@ func (s *svc) Block(ctx context.Context, name string, honour bool) (string, erro
 	case <-ch:
 		return name, nil
 	case <-ctx.Done():
+		w.wokenByCancel(name)
 		return "", ctx.Err()
 	}
 }
